@@ -334,15 +334,27 @@ func (ex *Exec) copyElems(st *PState, dst, src *SliceV, n *Term) {
 		}
 		maxN = n.hi.Int64()
 	}
+	if maxN <= 0 {
+		return
+	}
+	if maxN > 1<<20 {
+		fail("copy of %d elements too large", maxN)
+	}
 	// read all source elements first (memmove semantics)
 	vals := make([]Value, maxN)
 	for i := int64(0); i < maxN; i++ {
 		vals[i] = ex.sliceElemGuarded(st, src, ts.Int64(i))
 	}
+	darr := walk(ex.objValue(st, dst.Obj), dst.Path).(*ArrayV)
 	for i := int64(0); i < maxN; i++ {
 		it := ts.Int64(i)
 		inRange := ts.Lt(it, n)
 		if inRange.IsFalse() {
+			break
+		}
+		// destination cell outside the backing array: only reachable under an infeasible guard
+		// (bounds are separate obligations of the slicing operations)
+		if c, ok := ts.Add(dst.Off, it).constInt(); ok && (c.Sign() < 0 || c.Cmp(bi(int64(len(darr.E)))) >= 0) {
 			break
 		}
 		if inRange.IsTrue() {
